@@ -409,6 +409,7 @@ impl<'a> Interp<'a> {
             V::Str(s) => s.clone(),
             V::Dbl(d) => d.to_string(),
             V::Null => "null".into(),
+            V::NoneV => "".into(),
             other => format!("{:?}", other),
         }
     }
@@ -916,6 +917,13 @@ impl<'a> Interp<'a> {
             for i in 0..m.states.len() {
                 let d = m.states[i].data.clone();
                 self.init_data(&d);
+            }
+        } else {
+            // late binding: the data elements exist from load time, without a value
+            for i in 0..m.states.len() {
+                for d in &m.states[i].data {
+                    self.store.insert(d.id.clone(), V::NoneV);
+                }
             }
         }
         let init = m.root_initial.clone();
